@@ -106,7 +106,7 @@ theorem C14_endpoints_active_asis_partial {n : Nat} {f : Nat → Bool} {a : Nat 
         obtain ⟨_, _, he⟩ := addPairs_endpoints hnet
         intro u hu
         rcases he u hu with hu | ⟨x, y, hnp, hu⟩
-        · simp [Table.endpoints, Table.empty] at hu
+        · exact absurd hu (by simp [Table.endpoints, Table.empty])
         · have := newPairs_asis_lt (by first | exact Or.inl rfl | exact Or.inr rfl) rfl hnp u hu
           simpa [Pop.fresh] using this
     · simp at hi
@@ -161,7 +161,8 @@ theorem C14_timed_edges (dt : Rat) (hdt : 0 < dt) (alive : Nat → Bool) (a b : 
     ageRowN dt alive k (a, b, d) = if k = 0 ∨ (k : Int) < (d / dt).ceil then some (a, b, d - k * dt) else none := by
   rw [ageRowN_alive dt hdt alive a b d ha hb k]
   have : ((k : Int) < (d / dt).ceil) ↔ ((k : Rat) * dt < d) := by
-    rw [Rat.lt_ceil_iff, Rat.lt_div_iff hdt]; simp
+    rw [Rat.lt_ceil_iff, Rat.lt_div_iff hdt]
+    try rfl
   simp only [this]
 
 /-- an edge with a dead endpoint does not survive `end_pairs` -/
